@@ -34,8 +34,8 @@ def build(tier, seed):
     obs += [
         Ob('C03.word_if_known', it, 'C03/intern.c', 'h_word_if_known', 'reserved-word lookup for a symbolic word (length <= 24, arbitrary bytes): hit iff the spelling is in the table, and then that entry',
            kind='K1', flags=['--unwind', '72'], replay='C03', timeout=1800),
-        Ob('C03.intern', it, 'C03/intern.c', 'h_intern', 'intern from an arbitrary bucket state (<= 2 earlier words, arbitrary contents): empty / reserved / already interned anywhere in the bucket / new word',
-           kind='K1', flags=['--unwind', '72'], replay='C03', timeout=1800, bounded=None),
+        Ob('C03.intern', it, 'C03/intern.c', 'h_intern', 'intern from an arbitrary bucket state (<= %d earlier words, arbitrary contents)' % (2 if tier == 'quick' else 4) + ': empty / reserved / already interned anywhere in the bucket / new word',
+           kind='K1', flags=['--unwind', '72'], replay='C03', timeout=1800 if tier == 'quick' else 3600, bounded=None, defines=([] if tier == 'quick' else ['NB=5'])),
     ]
     obs[-1].heavy = obs[-2].heavy = True
     kw = Ob('C03.known_word', it, 'C03/intern.c', 'h_known_word', 'known_word(s), s a symbolic NUL-terminated spelling (<= 24 bytes): the table entry with that spelling, std::domain_error otherwise; word_if_known through its proved contract',
@@ -46,6 +46,6 @@ def build(tier, seed):
                              'std::copy on char8_t ranges copies [first,last) to out and writes nothing else (ghost-index contract in harness/C03/arena.c)',
                              'word lengths up to 2^40 bytes'])
     meta['assumptions'] += ['u8string_view comparison = bytewise lexicographic (harness/svmodel.h), words of length <= 24 bytes in the intern obligations (reserved words are <= 18 bytes)',
-        'std::hash is some function of the bytes; std::map::operator[] yields the bucket of that hash; bucket holds <= 2 earlier words (K5-style bound on chain length, reasoning is uniform per element)',
+        'std::hash is some function of the bytes; std::map::operator[] yields the bucket of that hash; bucket holds <= %d earlier words (K5-style bound on chain length, reasoning is uniform per element)' % (2 if tier == 'quick' else 4),
         'std::find_if / std::lower_bound: linear-scan specifications that call the real lowered predicates; forward_list nodes never move']
     return [ar, it], obs, meta
